@@ -421,6 +421,19 @@ Theorem C03_name_trailing_octets_hex : forall (n : aname) x r, name_ok n = true 
 Proof. exact name_trailing_hex. Qed.
 Print Assumptions C03_name_trailing_octets_hex.
 
+(* a value that is not a valid string of the six types (identifier octet t, content c: an INTEGER, a GeneralString,
+   a PrintableString holding '@', ...) makes crypto/x509 refuse the name - hence the certificate - wherever it
+   stands: after any well-formed RDNs, after any well-formed attributes of its own RDN, whatever follows it.  So
+   the '#'hex form of names.FromRawDN is never shown for a certificate, and no text is invented for such a name *)
+Theorem C03_name_bad_value_refused : forall (pre : aname) (r : list aatv) o t c extra after_atv after_rdn,
+  forallb (forallb atv_ok) pre = true -> forallb atv_ok r = true ->
+  oid_cb_ok o = true -> tag_ok t = true -> string_value t c = None ->
+  let content := name_content pre ++ tlv_enc 49 (rdn_body r ++ bad_atv o t c extra ++ after_atv) ++ after_rdn in
+  len_ok (length content) = true ->
+  name_text content = None.
+Proof. exact name_bad_value_refused. Qed.
+Print Assumptions C03_name_bad_value_refused.
+
 (* Subject and Issuer from the octets of the certificate.  [with_names o] answers the two Names by [name_text]
    (the name oracle of o is not consulted); [with_written_names d iss sub] is the certificate as written d with
    the written names iss / sub; [der_ok_but_names] is der_ok without its two clauses about the name oracle.
